@@ -16,9 +16,9 @@
    Theorems only.  Where the faithful model REFUTES a clause, the clause is kept as a `_statement`, refuted
    by a witness schedule that was replayed on the real code (findings/C14.md), and proved `_partial` on the
    executions that avoid exactly the offending step. *)
-From Coq Require Import List Arith Bool Lia.
+From Coq Require Import List Arith Bool Lia NArith.
 From Tinode Require Import Sys.Lifecycle Sys.LifecycleProofs Sys.LifecycleAttach Sys.LifecycleTerm
-  Sys.LifecycleProgress Sys.LifecycleReply.
+  Sys.LifecycleProgress Sys.LifecycleReply Sys.TopicStatusC14d Sys.LifecycleFailDelC14d.
 Import ListNotations.
 
 (* ================================================================ 1. in-flight balance *)
@@ -280,6 +280,71 @@ Theorem c14_no_stuck_partial : forall st ow us c,
 Proof. exact no_stuck_safe. Qed.
 Print Assumptions c14_no_stuck_partial.
 
+(* ================================================================ 7. a {del what=topic} whose store call FAILS
+
+   Hub.topicUnreg when store.Topics.Delete returns an error (hub.go:404-422 case 1.1.1, 526-532 case 1.2.1.1): the
+   step [HubUnregFail] of Lifecycle.exec.  It is a step of `reach`, so EVERY theorem above (symmetry at quiescence,
+   terminated sessions detached, replies, in-flight balance, deleted topics) holds on the executions in which any
+   number of deletes fail.  Below: what the failed delete itself leaves behind. *)
+
+(* the status word (Sys/TopicStatusC14d.v: markPaused(true); Delete fails; markPaused(false)): a failed delete gives
+   back the word it found - for every value of the word of a topic that is not paused *)
+Theorem c14_failed_delete_restores_status : forall st : N,
+  is_paused st = false -> unreg_del_status true st = st.
+Proof. exact failed_delete_restores_status. Qed.
+Print Assumptions c14_failed_delete_restores_status.
+
+(* for EVERY word: `paused` ends clear, `marked deleted` (irrecoverable) is not touched *)
+Theorem c14_failed_delete_flags : forall st : N,
+  status_flags (unreg_del_status true st) = (false, is_deleted st).
+Proof. exact failed_delete_flags. Qed.
+Print Assumptions c14_failed_delete_flags.
+
+Theorem c14_failed_delete_keeps_active : forall st : N,
+  is_inactive st = false -> is_inactive (unreg_del_status true st) = false.
+Proof. exact failed_delete_keeps_active. Qed.
+Print Assumptions c14_failed_delete_keeps_active.
+
+(* whereas the successful path leaves the topic inactive for good *)
+Theorem c14_successful_delete_inactive : forall st : N, is_inactive (unreg_del_status false st) = true.
+Proof. exact successful_delete_inactive. Qed.
+Print Assumptions c14_successful_delete_inactive.
+
+(* the instance the request addresses: its status word after the step is what the code's status operations leave,
+   i.e. the word before; Lifecycle's [inactive] is isInactive of that word *)
+Theorem c14_failed_delete_status_of_instance : forall c c' r rest i,
+  step c HubUnregFail c' -> c_hunreg c = HDel r :: rest -> c_table c (r_topic r) = Some i ->
+  abs_status (c_inst c' i) = unreg_del_status true (abs_status (c_inst c i)) /\
+  inactive (c_inst c' i) = inactive (c_inst c i) /\
+  inactive (c_inst c' i) = is_inactive (abs_status (c_inst c' i)).
+Proof.
+  intros c c' r rest i Hs E Et. destruct (hubunregfail_status c c' Hs r rest i E Et) as [A B].
+  repeat split; auto. apply inactive_abs_status.
+Qed.
+Print Assumptions c14_failed_delete_status_of_instance.
+
+(* topic-usable-after-failed-delete: the hub's table, every instance (sessions, phase, flags), the store rows and every
+   queue but Hub.unreg are as before; sessions differ in their outbox only *)
+Theorem c14_failed_delete_topic_as_before : forall c c', step c HubUnregFail c' -> same_serving c c'.
+Proof. exact hubunregfail_same_serving. Qed.
+Print Assumptions c14_failed_delete_topic_as_before.
+
+(* the request is answered (500) unless the owner's session is closing *)
+Theorem c14_failed_delete_answered : forall c c', step c HubUnregFail c' ->
+  exists r rest, c_hunreg c = HDel r :: rest /\
+    (s_term (c_sess c (r_sid r)) = false -> s_out (c_sess c' (r_sid r)) = s_out (c_sess c (r_sid r)) ++ [rep r CInternal]).
+Proof. exact hubunregfail_answered. Qed.
+Print Assumptions c14_failed_delete_answered.
+
+(* whatever a member could ask for before the failed delete ({sub}, {leave}, closing the connection, applying a detach
+   notice) he can ask for after it *)
+Theorem c14_failed_delete_members_served : forall c c' l,
+  step c HubUnregFail c' ->
+  match l with ClientSub _ _ _ | ClientLeave _ _ _ _ | DiscBegin _ | DiscEnd _ | SessDetach _ => True | _ => False end ->
+  exec l c <> None -> exec l c' <> None.
+Proof. intros c c' l Hs. apply client_enabled_after_failed_delete. exact (hubunregfail_same_serving c c' Hs). Qed.
+Print Assumptions c14_failed_delete_members_served.
+
 (* ================================================================ the hypotheses are satisfiable *)
 
 (* a schedule without any excluded step that ends quiescent with session 1 attached to topic 1 on both sides *)
@@ -304,3 +369,14 @@ Proof. exact chan_leave_by_group_name. Qed.
 Example c14_example_noisy_is_decidable :
   noisy (init_config ex_stored ex_owner ex_user ex_chan) (TopicUnreg 0) = false.
 Proof. reflexivity. Qed.
+
+(* a failed delete, then the member leaves, closes its connection, and the owner deletes for good: the member's
+   {leave} is answered 200, both sides are detached, the owner got 500 then 200 *)
+Example c14_example_failed_delete_then_leave : exists c,
+  run [ClientSub 1 1 false; HubJoin; InitDone 0 true; TopicReg 0 true; ClientDel 2 1; HubUnregFail;
+       ClientLeave 1 1 false false; TopicUnreg 0; ClientDel 2 1; HubUnreg true; TopicExit 0]
+      (init_config ex_stored ex_owner ex_user ex_chan) = Some c /\
+  s_out (c_sess c 1) = [mkRep (Some 1) COk 1; mkRep (Some 3) COk 1] /\
+  s_out (c_sess c 2) = [mkRep (Some 2) CInternal 1; mkRep (Some 4) COk 1] /\
+  lookup 1 (s_subs (c_sess c 1)) = None /\ i_sessions (c_inst c 0) = [] /\ c_store c 1 = false.
+Proof. eexists. split; [vm_compute; reflexivity|]. repeat split. Qed.
